@@ -25,7 +25,7 @@ var (
 		{10 * time.Second, 100 * time.Millisecond}, {3 * time.Second, 250 * time.Millisecond},
 		// window lengths that are not exact in binary fractions of an hour / a second (with the eight-weight list: every position of the weight cycle)
 		{50 * time.Minute, 5 * time.Minute}, {7 * time.Minute, time.Minute}, {5 * time.Second, 500 * time.Millisecond}, {100 * time.Millisecond, 10 * time.Millisecond}}
-	weights = [][]float64{nil, {1}, {2}, {0.25}, {1, 2}, {2, 1, 0.5}, {0, 1}, {1, 1, 1, 1, 1, 1, 1}, {1, 1, 1, 2}, {1, 2, 3, 4, 5, 6, 7, 8}}
+	weights = [][]float64{nil, {1}, {2}, {0.25}, {1, 2}, {2, 1, 0.5}, {0, 1}, {1, 1, 1, 1, 1, 1, 1}, {1, 1, 1, 2}, {1, 2, 3, 4, 5, 6, 7, 8}, {1, 2, 3, 4, 5, 6, 7}} // (seven different weights: one per day of a week of 24 h windows)
 )
 
 func pdf(x, mu, sigma float64) float64 {
